@@ -3,6 +3,10 @@
 (*   Parse0   the eager parser accepts the table and returns the values / strings that were encoded *)
 (*   Paths    eager, cached-strings, lazy (by index and by iterator), memory-mapped and parallel    *)
 (*            access return the same records with the same resolved strings                         *)
+(*   Gets     (n <= 128) record i through each path's by-index entry point (eager, cached strings,   *)
+(*            lazy get_record, mmap, parallel) equals record i of the table, for every i             *)
+(*   Routes   (n <= 128) every public route through the lazy iterator (next, nth, skip, step_by,     *)
+(*            last, compositions; parameters chosen by TLC incl. 0, n-1, n) yields RouteIdx(route,n) *)
 (*   Keys     hashed and binary-searched lookups return a record carrying the key; absent -> none   *)
 (*   Write    accepted; len = 20 + n*rs + sb with the header fields read from the written bytes;    *)
 (*            n and rs equal the spec's values; no string occurs twice in the block; offset 0 = ""  *)
@@ -24,6 +28,14 @@ PathsP(e) == LET tbad == {tp \in {"eager", "cached", "lazyIdx", "lazyIter", "mma
 KeysP(e) == LET tbadH == \E ti \in 1..Len(e.ents) : e.ents[ti][3] # (IF e.ents[ti][2] THEN e.ents[ti][1] ELSE "-")
                 tbadB == \E ti \in 1..Len(e.ents) : e.ents[ti][4] # (IF e.ents[ti][2] THEN e.ents[ti][1] ELSE "-")
             IN <<~tbadH /\ ~tbadB, IF tbadH THEN "key-hash" ELSE "key-binary">>
+\* record i, reached by index on every path, is record i of the table
+GetPaths == {"eager", "cached", "lazy", "mmap", "par"}
+GetsP(e) == LET tbad == {tp \in GetPaths : e[tp] # tsrc.rtoks} IN
+            <<tbad = {}, IF tbad = {} THEN "" ELSE "get-" \o (CHOOSE tp \in tbad : TRUE)>>
+\* every iterator route yields exactly the records RouteIdx says, in order
+RouteOk(tr) == LET tix == RouteIdx(tr, tcase.n) IN tr.got = [tj \in 1..Len(tix) |-> tsrc.rtoks[tix[tj] + 1]]
+RoutesP(e) == LET tbad == {tk \in 1..Len(e.routes) : ~RouteOk(e.routes[tk])} IN
+              <<tbad = {}, IF tbad = {} THEN "" ELSE "route-" \o e.routes[CHOOSE tk \in tbad : \A tj \in tbad : tk <= tj].kind>>
 Sids(tblock) == [ti \in 1..Len(tblock) |-> tblock[ti][2]]
 WriteP(e) == IF e.res # "ok" THEN <<FALSE, "write-rejected">>
              ELSE IF e.len # FileSize(e.hdr[1], e.hdr[3], e.hdr[4]) \/ ~e.blockInFile THEN <<FALSE, "size-arithmetic">>
@@ -35,11 +47,14 @@ ReparseP(e) == IF e.res # "ok" THEN <<FALSE, "reparse-failed">> ELSE <<e.rtok = 
 PofEvent(e) == CASE e.ev = "Parse0"  -> ParseP(e)
                  [] e.ev = "Paths"   -> PathsP(e)
                  [] e.ev = "Keys"    -> KeysP(e)
+                 [] e.ev = "Gets"    -> GetsP(e)
+                 [] e.ev = "Routes"  -> RoutesP(e)
                  [] e.ev = "Write"   -> WriteP(e)
                  [] e.ev = "Reparse" -> ReparseP(e)
                  [] e.ev \in {"Reset", "Build"} -> <<TRUE, "">>
                  [] OTHER -> Assert(FALSE, <<"unknown event", e.ev>>)
-DofEvent(e) == CASE e.ev = "Build" -> <<e.hdr[2] = FieldCount(Sch) /\ e.hdr[3] = RecordSize(Sch) /\ e.len = FileSize(tcase.n, RecordSize(Sch), e.hdr[4]), "builder-layout">>
+DofEvent(e) == CASE e.ev = "Routes" -> <<{[kind |-> e.routes[tk].kind, a |-> e.routes[tk].a, b |-> e.routes[tk].b] : tk \in 1..Len(e.routes)} = RoutesFor(tcase.n), "route-set">>
+                 [] e.ev = "Build" -> <<e.hdr[2] = FieldCount(Sch) /\ e.hdr[3] = RecordSize(Sch) /\ e.len = FileSize(tcase.n, RecordSize(Sch), e.hdr[4]), "builder-layout">>
                  [] e.ev = "Write" -> IF e.res = "ok" /\ e.hdr[2] # FieldCount(Sch) THEN <<FALSE, "field-count-written">>
                                       ELSE <<e.res # "ok" \/ Len(e.block) = tsrc.nstr + (IF tsrc.hasEmpty THEN 0 ELSE 1), "block-string-count">>
                  [] OTHER -> <<TRUE, "">>
@@ -52,7 +67,7 @@ Next == /\ tl <= Len(Rec)
            /\ IF tp[1] THEN TRUE ELSE PrintT(<<"BAD", tl, tp[2]>>)
            /\ IF td[1] THEN TRUE ELSE PrintT(<<"DRIFT", tl, td[2]>>)
            /\ tcase' = IF e.ev = "Reset" THEN [schema |-> e.schema, key |-> e.key, n |-> e.n] ELSE tcase
-           /\ tsrc' = IF e.ev = "Build" THEN [hdr |-> e.hdr, rtok |-> e.rtok, nstr |-> e.nstr, hasEmpty |-> e.hasEmpty] ELSE IF e.ev = "Reset" THEN 0 ELSE tsrc
+           /\ tsrc' = IF e.ev = "Build" THEN [hdr |-> e.hdr, rtok |-> e.rtok, nstr |-> e.nstr, hasEmpty |-> e.hasEmpty, rtoks |-> e.rtoks] ELSE IF e.ev = "Reset" THEN 0 ELSE tsrc
         /\ UNCHANGED dvars
 Accepted == LET d == TLCGet("stats").diameter IN
             IF d - 1 = Len(Rec) THEN PrintT(<<"CONSUMED", Len(Rec)>>) ELSE Print(<<"TRACE_STUCK_AT", d>>, FALSE)
